@@ -29,7 +29,12 @@ use vm_memory::{
     GuestRegionMmap, MemoryRegionAddress, VolatileMemory, VolatileMemoryError, VolatileSlice,
 };
 
-pub const SUITES: &[Suite] = &[Suite { name: "C18", gen, exec }];
+// the Xen suite C18xen lives in c18_xen.rs (xen builds only); this is its empty stand-in in the standard build
+fn nogen(_: &mut Rng, _: Tier, _: &mut dyn FnMut(Vec<Tok>)) {}
+fn noexec(_: &[Tok]) -> Vec<Tok> {
+    vec![Tok::N(0xbad0bad)]
+}
+pub const SUITES: &[Suite] = &[Suite { name: "C18", gen, exec }, Suite { name: "C18xen", gen: nogen, exec: noexec }];
 
 const FILL: u8 = 0xaa;
 const SRC: u8 = 0x5a;
